@@ -370,6 +370,8 @@ theorem addNewPeer_NI (env : CryptoEnv) (o : Oracle) (c : Ctx) (now : Int) (a : 
   split
   · exact h
   · rename_i pc hpc
+    refine NI.step (c := updatePeerInfo env o _ now a (some info)) ?_ rfl rfl rfl
+      (fun _ _ hm => Or.inl hm) (fun _ _ hm => Or.inl hm)
     apply updatePeerInfo_NI
     refine h.step rfl rfl rfl ?_ ?_
     · intro b r hb
@@ -990,6 +992,14 @@ theorem TblCase.of_node {t : Table} {now : Int} {s : NAddr} {L : Prop} {c c' : C
   | set cs h k => exact .set cs (by rw [hn]; exact h) (by rw [hn]; exact k)
   | remove h => exact .remove (by rw [hn]; exact h)
 
+theorem TblCase.of_table_peers {t : Table} {now : Int} {s : NAddr} {L : Prop} {c c' : Ctx} (h : TblCase t now s L c)
+    (ht : c'.node.table = c.node.table) (hp : c'.node.peers = c.node.peers) : TblCase t now s L c' := by
+  cases h with
+  | same h => exact .same (by rw [ht]; exact h)
+  | learn a h l => exact .learn a (by rw [ht]; exact h) l
+  | set cs h k => exact .set cs (by rw [ht]; exact h) (by rw [hp]; exact k)
+  | remove h => exact .remove (by rw [ht]; exact h)
+
 theorem connectSock_table (env : CryptoEnv) (o : Oracle) (c : Ctx) (a : NAddr) : (connectSock env o c a).node.table = c.node.table := by
   unfold connectSock
   simp only []
@@ -1052,7 +1062,8 @@ theorem addNewPeer_tbl (env : CryptoEnv) (o : Oracle) (c : Ctx) (now : Int) (a :
   simp only []
   split
   · exact .same rfl
-  · exact updatePeerInfo_tbl' env o _ now a (some info) _ rfl
+  · refine TblCase.of_table_peers (c := updatePeerInfo env o _ now a (some info)) ?_ rfl rfl
+    exact updatePeerInfo_tbl' env o _ now a (some info) _ rfl
 
 theorem removePeer_tbl (c : Ctx) (now : Int) (a : NAddr) : TblCase c.node.table now a False (removePeer c now a) := by
   unfold removePeer
@@ -1472,7 +1483,8 @@ theorem addNewPeer_PK (env : CryptoEnv) (o : Oracle) (c : Ctx) (now : Int) (a : 
   simp only []
   split
   · exact h
-  · apply updatePeerInfo_PK
+  · refine PK.step (c := updatePeerInfo env o _ now a (some info)) ?_ (fun _ ha => ha) (fun _ ha => Or.inl ha)
+    apply updatePeerInfo_PK
     exact h.step (fun b hb => hb) (fun b hb => Or.inl (key_mem_eraseA hb))
 
 theorem removePeer_PK (c : Ctx) (now : Int) (a : NAddr) (h : PK own0 pend0 s c) : PK own0 pend0 s (removePeer c now a) := by
